@@ -40,11 +40,15 @@ SignExt8(bs) ==
 
 RECURSIVE CmpAt(_,_,_,_,_,_)
 \* unsigned bytewise compare of span (ao,al) of a with span (bo,bl) of b: -1/0/1
-\* shorter-is-smaller on a common prefix
+\* shorter-is-smaller on a common prefix.  Equal blocks of 256 bytes are skipped with one
+\* sequence comparison, so that names of 32768+ bytes (recorded traces) do not need a
+\* recursion as deep as the name is long.
 CmpAt(a, ao, al, b, bo, bl) ==
   IF al = 0 /\ bl = 0 THEN 0
   ELSE IF al = 0 THEN -1
   ELSE IF bl = 0 THEN 1
+  ELSE IF al >= 256 /\ bl >= 256 /\ SubSeq(a, ao + 1, ao + 256) = SubSeq(b, bo + 1, bo + 256)
+       THEN CmpAt(a, ao + 256, al - 256, b, bo + 256, bl - 256)
   ELSE IF B(a, ao) < B(b, bo) THEN -1
   ELSE IF B(a, ao) > B(b, bo) THEN 1
   ELSE CmpAt(a, ao + 1, al - 1, b, bo + 1, bl - 1)
